@@ -4,6 +4,7 @@ package main
 
 import (
 	"bytes"
+	"fmt"
 
 	gots "github.com/Comcast/gots/v2"
 	"github.com/Comcast/gots/v2/scte35"
@@ -187,6 +188,34 @@ func scteDescOp(d scte35.SegmentationDescriptor, o Val) {
 				cs[j].SetPTSOffset(gots.PTS(o.L[2].L[1].U()))
 			}
 		}
+	// ---- arguments taken from the SAME object's getters (scte.hist only; notes/aliasing.md)
+	case 32: // SetMID(list made of own MID() entries (by index) and fresh UPIDs ([ty xbytes]))
+		own := d.MID()
+		us := []scte35.UPID{}
+		for _, e := range o.L[1].L {
+			if e.K == 0 {
+				if j := e.Int(); j >= 0 && j < len(own) {
+					us = append(us, own[j])
+				}
+				continue
+			}
+			u := scte35.CreateUPID()
+			u.SetUPIDType(scte35.SegUPIDType(e.L[0].U()))
+			u.SetUPID(append([]byte{}, e.L[1].B...))
+			us = append(us, u)
+		}
+		d.SetMID(us)
+	case 33: // SetComponents(own Components() in another order / with repetitions)
+		own := d.Components()
+		cs := []scte35.ComponentOffset{}
+		for _, e := range o.L[1].L {
+			if j := e.Int(); j >= 0 && j < len(own) {
+				cs = append(cs, own[j])
+			}
+		}
+		d.SetComponents(cs)
+	case 34: // SetUPID(own UPID())
+		d.SetUPID(d.UPID())
 	}
 }
 
@@ -234,7 +263,40 @@ func scteSigOp(s scte35.SCTE35, o Val) {
 		i := o.L[1].Int()
 		ds := s.Descriptors()
 		if i >= 0 && i < len(ds) {
+			if k := o.L[2].L[0].Int(); k == 17 || k == 20 || k == 21 || k == 32 || k == 5 {
+				// these calls legitimately change what an entry of MID() handed out earlier shows
+				forgetViews(fmt.Sprintf("descriptor %p MID()", ds[i]))
+			}
 			scteDescOp(ds[i], o.L[2])
+		}
+	case 10: // SetDescriptors(own Descriptors() in another order): a new slice holding the same objects
+		own := s.Descriptors()
+		ds := []scte35.SegmentationDescriptor{}
+		for _, e := range o.L[1].L {
+			if j := e.Int(); j >= 0 && j < len(own) {
+				ds = append(ds, own[j])
+			}
+		}
+		s.SetDescriptors(ds)
+	case 11: // SetCommandInfo(own CommandInfo())
+		s.SetCommandInfo(s.CommandInfo())
+	}
+}
+
+// scteKeep records what the signal hands out at this moment: Data(), the descriptor list, each descriptor's UPID()
+// and the entries of MID() (stable.go)
+func scteKeep(when string, s scte35.SCTE35) {
+	keep("Data() "+when, s.Data())
+	ds := s.Descriptors()
+	keepList("Descriptors() "+when, ds)
+	for _, d := range ds {
+		keep(fmt.Sprintf("descriptor %p UPID() %s", d, when), d.UPID())
+		for j, u := range d.MID() {
+			u := u
+			keep(fmt.Sprintf("descriptor %p MID()[%d].UPID() %s", d, j, when), u.UPID())
+			keepView(fmt.Sprintf("descriptor %p MID()[%d] %s", d, j, when), func() string {
+				return fmt.Sprint(u.UPIDType(), u.UPID())
+			})
 		}
 	}
 }
@@ -246,7 +308,7 @@ func init() {
 		if err != nil {
 			return VErr(errCode(err))
 		}
-		v := scteView(s)
+		v := twice("SCTE35 getters", func() Val { return scteView(s) })
 		return VOk(VL(v, VBool(bytes.Equal(in, a[0].B))))
 	})
 	register("scte.reencode", func(a []Val) Val {
@@ -255,7 +317,8 @@ func init() {
 		if err != nil {
 			return VErr(errCode(err))
 		}
-		out := append([]byte{}, s.UpdateData()...)
+		scteKeep("after decoding", s)
+		out := append([]byte{}, keep("bytes returned by UpdateData", s.UpdateData())...)
 		_ = s.String() // C05: a decoded object can be printed without panicking (a panic turns the reply into [2])
 		return VOk(VL(VB(out), scteView(s)))
 	})
@@ -273,9 +336,11 @@ func init() {
 		for _, o := range a[1].L {
 			scteSigOp(s, o)
 		}
+		scteKeep("before UpdateData", s)
 		before := append([]byte{}, s.Data()...)
-		out := append([]byte{}, s.UpdateData()...)
-		view := scteView(s)
+		out := append([]byte{}, keep("bytes returned by UpdateData", s.UpdateData())...)
+		view := twice("SCTE35 getters", func() Val { return scteView(s) })
+		scteKeep("after UpdateData", s)
 		after := append([]byte{}, s.Data()...)
 		var rt Val
 		if s2, err := scte35.NewSCTE35(append([]byte{0}, out...)); err != nil {
@@ -284,6 +349,30 @@ func init() {
 			rt = VOk(scteView(s2))
 		}
 		return VOk(VL(VB(out), view, VB(before), VB(after), rt))
+	})
+	// scte.hist <start> <ops>: ONE signal, every getter after every step (twice), everything handed out is kept
+	register("scte.hist", func(a []Val) Val {
+		var s scte35.SCTE35
+		if len(a[0].L) == 0 {
+			s = scte35.CreateSCTE35()
+		} else {
+			var err error
+			in := append([]byte{}, a[0].L[0].B...)
+			s, err = scte35.NewSCTE35(keep("input of NewSCTE35", in[:len(in):len(in)]))
+			if err != nil {
+				return VErr(errCode(err))
+			}
+		}
+		look := func(when string) Val {
+			scteKeep(when, s)
+			return twice("SCTE35 getters", func() Val { return scteView(s) })
+		}
+		out := []Val{look("at the start")}
+		for i, o := range a[1].L {
+			scteSigOp(s, o)
+			out = append(out, look(fmt.Sprintf("after step %d", i)))
+		}
+		return VOk(Val{K: 2, L: out})
 	})
 	register("scte.crc", func(a []Val) Val { return VB(gots.ComputeCRC(a[0].B)) })
 }
